@@ -239,7 +239,11 @@ func gen(r *hlib.Rand, n int, tier, profile string, emit func(string, ...any)) {
 			case 11:
 				m.EncryptionMetadata = nil
 			case 12:
-				m.Ciphertext = m.Ciphertext[:hlib.Pick(r, 0, 1, 11, 12, 13, 28)]
+				cut := hlib.Pick(r, 0, 1, 11, 12, 13, 28)
+				if cut >= len(m.Ciphertext) {
+					cut = len(m.Ciphertext) - 1 // always a real truncation
+				}
+				m.Ciphertext = m.Ciphertext[:cut]
 			case 13: // the other curve's banner: key length check
 				if curve == cert.Curve_P256 {
 					useBanner = cert.EncryptedEd25519PrivateKeyBanner
